@@ -399,6 +399,9 @@ type Block struct {
 	// storage write (see C09's garbage shape key)
 	LeakShape bool
 
+	// Empty: the block changed no account at all (CommitEmpty); its root equals its parent's root
+	Empty bool
+
 	// Script is the exact sequence of account operations of this block (recorded by Commit), so that the identical
 	// block can be processed again after a rollback (Recommit)
 	Script []Prim
@@ -418,7 +421,7 @@ type Prim struct {
 // not yet committed root, which is not in the DB) can succeed the second time, because a rollback while pruning is
 // blocked leaves the nodes of the first processing in the DB. Such blocks are not re-processed.
 func (b *Block) Replayable() bool {
-	if b.Script == nil {
+	if b.Script == nil || b.Empty {
 		return false
 	}
 	for _, p := range b.Script {
@@ -815,6 +818,30 @@ func (w *World) Commit(rng *vk.Rand, initial bool, restore *Block) (*Block, erro
 	w.Chain = append(w.Chain, b)
 	w.cur = nb
 	w.Counts["commit"]++
+	return b, nil
+}
+
+// CommitEmpty commits a block that changes no account (not even the counter account): AccountsDB.Commit with nothing
+// dirty. Its root must equal the root of its parent - empty blocks are common on a real chain.
+func (w *World) CommitEmpty() (*Block, error) {
+	if len(w.Chain) == 0 {
+		return nil, fmt.Errorf("the first block cannot be empty")
+	}
+	parent := w.Head()
+	root, err := w.Env.Adb.Commit()
+	if err != nil {
+		return nil, err
+	}
+	if !bytes.Equal(root, parent.Root) {
+		return nil, fmt.Errorf("empty block has root %x, its parent %x", root[:4], parent.Root[:4])
+	}
+	b := &Block{Height: w.height, Root: cp(root), Accts: cloneAccts(w.cur), Desc: "empty block (state root unchanged)", Empty: true, Script: []Prim{}}
+	b.Hdr = &block.Header{Nonce: w.height, Round: w.height, RootHash: cp(root)}
+	w.height = b.Height + 1
+	w.Chain = append(w.Chain, b)
+	w.cur = b.Accts
+	w.Counts["commit"]++
+	w.Counts["commit_empty_block"]++
 	return b, nil
 }
 
